@@ -308,7 +308,7 @@ class Str(object):
         if self._s == '':
             return str(min(self.allowed_quotes, key=len)) * 2
 
-        if self.pep701 and '\0' in self._s:
+        if self.pep701 and ('\0' in self._s or any(0xD800 <= ord(c) <= 0xDFFF for c in self._s)):
             # Since PEP 701 the expression part may contain backslashes and any quote
             return repr(self._s)
 
